@@ -54,6 +54,9 @@ func (h *valueHolder) UnmarshalJSON(b []byte) error {
 // kinds whose decoder is modelled in Lean (Model/Wire.lean)
 var modelledWire = map[string]bool{"set": true, "map": true, "uuid": true, "row": true, "condition": true, "mutation": true, "value": true}
 
+// kinds whose decoder and encoder are modelled in Lean (Model/WireEnc.lean)
+var recodedWire = map[string]bool{"basetype": true, "columntype": true, "columnschema": true, "select": true, "operation": true}
+
 // goValJ renders a decoded value in the canonical form shared with the model
 func goValJ(v interface{}) interface{} {
 	switch t := v.(type) {
@@ -218,6 +221,19 @@ func taggedTree(rng *rand.Rand, depth int) interface{} {
 	}
 }
 
+func marshalPanics(v interface{}) (out string) {
+	defer func() {
+		if p := recover(); p != nil {
+			out = fmt.Sprintf("panic: %v", p)
+		}
+	}()
+	if h, ok := v.(valueHolder); ok {
+		v = h.V
+	}
+	_, _ = json.Marshal(v)
+	return ""
+}
+
 // decodeOutcome: "ok", "err" or "panic:<msg>"
 func decodeOutcome(kind string, text []byte) (out string, val interface{}) {
 	defer func() {
@@ -345,6 +361,19 @@ func corrupt(rng *rand.Rand, j interface{}) interface{} {
 // ---- valid encodings of every wire type (built from the library's own encoders)
 
 func validWire(r *Run, kind string) []byte {
+	switch kind {
+	case "basetype", "columntype", "columnschema", "schema":
+		return validSchemaWire(r, kind)
+	}
+	b, err := json.Marshal(validWireValue(r, kind))
+	if err != nil {
+		panic(fmt.Sprintf("cannot encode %s: %v", kind, err))
+	}
+	return b
+}
+
+// validWireValue: a structurally generated Go value of a wire type
+func validWireValue(r *Run, kind string) interface{} {
 	rng := r.Rng
 	ct := genColType(rng)
 	val := func() interface{} { return toOvs(nativeToOvsValue(genValue(rng, ct))) }
@@ -459,14 +488,8 @@ func validWire(r *Run, kind string) []byte {
 	case "condsince":
 		r1 := row()
 		v = ovsdb.MonitorCondSinceReply{Found: rng.Intn(2) == 0, LastTransactionID: uuidPool[2], Updates: ovsdb.TableUpdates2{"T": {uuidPool[1]: &ovsdb.RowUpdate2{Initial: &r1}}}}
-	case "basetype", "columntype", "columnschema", "schema":
-		return validSchemaWire(r, kind)
 	}
-	b, err := json.Marshal(v)
-	if err != nil {
-		panic(fmt.Sprintf("cannot encode %s: %v", kind, err))
-	}
-	return b
+	return v
 }
 
 func validSchemaWire(r *Run, kind string) []byte {
@@ -609,8 +632,18 @@ func runC19(r *Run) {
 			continue
 		}
 		r.Count(out)
+		if out == "ok" {
+			// whatever was accepted can be encoded again without a crash
+			if p := marshalPanics(val); p != "" {
+				r.Violation("decode:"+kind, cs, p, "encodes or returns an error", true, "re-encoding an accepted "+kind+" panicked", "")
+				continue
+			}
+		}
 		if modelledWire[kind] {
 			c19Correspond(r, kind, text, out, val, cs)
+		}
+		if recodedWire[kind] {
+			recodeCorrespond(r, "decode-model", kind, text)
 		}
 	}
 	// tagged random trees (nested sets / maps / uuids, well-formed or not) for the modelled decoders
